@@ -187,6 +187,8 @@ class Gen:
         return [n for n, k in env.items() if k == kind]
 
     def fresh(self, env):
+        if self.rng.random() < 0.06:
+            return self.rng.choice([50, 60])     # a variable / parameter named `item` or `partial`: shadows the implicit ones
         free = [v for v in VARS if v not in env]
         return self.rng.choice(free) if free else self.rng.choice(VARS)
 
@@ -408,7 +410,8 @@ class Gen:
         r = self.rng
         if r.random() < 0.3:   # filter on contexts: entries visible as names
             lst = self.leaf('lctx', env) if r.random() < 0.7 else ('list', tuple(self.leaf('ctx', env) for _ in range(r.choice([1, 2, 3]))))
-            return ('filter', lst, ('bin', r.choice(['Gt', 'Eq', 'Le']), ('name', r.choice([101, 101, 50, 102])), self.num_lit()))
+            who = r.choice([('name', 101), ('name', 101), ('name', 50), ('name', 102), ('path', ('name', 50), 101), ('path', ('name', 50), 101)])
+            return ('filter', lst, ('bin', r.choice(['Gt', 'Eq', 'Le']), who, self.num_lit()))
         return ('list', tuple(self.g_ctx(d - 1, env) for _ in range(r.choice([0, 1, 2, 3]))))
 
     def g_ctx(self, d, env):
@@ -443,6 +446,12 @@ class Gen:
             env[v] = kind
             e = ('null',) if r.random() < 0.06 else self.leaf(kind, {})
             entries.append((v, e))
+        if r.random() < 0.12:                    # the implicit names bound from outside
+            k = r.choice([50, 60])
+            kind = r.choice(['num', 'ctx', 'lnum'])
+            env[k] = kind
+            entries.append((k, self.leaf(kind, {})))
+            entries.sort()
         return env, tuple(entries)
 
     def case(self, depth):
@@ -515,3 +524,32 @@ def systematic_cases(gen, tries=40):
             cases.append((entries, build(c), pname, rt))
         missing += [(pname, rt) for rt in all_roots if rt not in found]
     return cases, missing
+
+
+def shadow_cases(gen):
+    """implicit names (`item` in filters, `partial` in for) against every way of binding the same name outside"""
+    r = gen.rng
+    n = lambda z: ('num', z)
+    lctx = ('list', (('ctx', ((101, n(1)),)), ('ctx', ((101, n(2)),)), ('ctx', ((101, n(3)), (102, n(9))))))
+    lctx_item = ('list', (('ctx', ((50, n(1)), (101, n(5)))), ('ctx', ((50, n(7)), (101, n(2))))))
+    lnum = ('list', (n(1), n(2), n(3)))
+    inner = [
+        ('filter', lctx, ('bin', 'Ge', ('path', ('name', 50), 101), n(2))),         # item.va on contexts without their own item
+        ('filter', lctx, ('bin', 'Ge', ('name', 101), n(2))),
+        ('filter', lctx_item, ('bin', 'Ge', ('name', 50), n(2))),                   # contexts with their own item entry
+        ('filter', lnum, ('bin', 'Gt', ('name', 50), n(1))),
+        ('filter', lnum, ('bin', 'Eq', ('name', 50), n(2))),
+        ('for', ((108, ('dlist', lnum)),), ('bin', 'Add', ('name', 108), ('filter', ('name', 60), n(-1)))),   # partial[-1]
+        ('for', ((108, ('dlist', lnum)),), ('inlist', ('name', 108), ('name', 60))),
+    ]
+    cases = []
+    for e in inner:
+        for nm in (50, 60):
+            cases.append((((nm, n(100)),), e))                                                    # bound in the input context
+            cases.append((((nm, ('ctx', ((101, n(0)),))),), e))
+            cases.append(((), ('for', ((nm, ('dlist', ('list', (n(10), n(20))))),), e)))           # iteration variable
+            cases.append(((), ('some', ((nm, ('list', (n(10),))),), ('bin', 'Eq', e, e))))
+            cases.append(((), ('call', ('fun', (nm,), e), (n(100),))))                             # function argument
+            cases.append(((), ('path', ('ctx', ((nm, n(100)), (101, e))), 101)))                   # earlier context entry
+            cases.append(((), ('filter', ('list', (n(5), n(6))), ('bin', 'Eq', ('bin', 'Eq', e, e), ('bool', True)))))   # enclosing filter
+    return cases
